@@ -27,12 +27,27 @@ static carquet_rle_encoder_t *mk_enc(void) {
   return enc;
 }
 
+void h_c11_enc_append(void) {
+  carquet_rle_encoder_t *enc = mk_enc();
+  size_t n = nondet_size_t();
+  __CPROVER_assume(n <= 64);
+  uint8_t *d = malloc(n);
+  __CPROVER_assume(d != NULL);
+  enc_append(enc, d, n);
+  if (enc->status == CARQUET_OK) CQV_CANARY("enc_append keeps status OK"); else CQV_CANARY("enc_append leaves an error status");
+}
+
 void h_c11_write_varint(void) {
-  carquet_buffer_t *buf = malloc(sizeof(*buf));
-  __CPROVER_assume(buf != NULL);
-  havoc_ghosts();
-  write_varint(buf, nondet_u32());
+  carquet_rle_encoder_t *enc = mk_enc();
+  write_varint(enc, nondet_u32());
   CQV_CANARY("write_varint returns");
+}
+
+void h_c11_complete_group(void) {
+  carquet_rle_encoder_t *enc = mk_enc();
+  complete_bitpack_group_from_run(enc);
+  CQV_CANARY("complete_bitpack_group_from_run returns");
+  if (enc->bitpack_count == 0) CQV_CANARY("group completed and flushed");
 }
 
 void h_c11_flush_rle(void) {
@@ -56,11 +71,41 @@ void h_c11_encoder_init(void) {
 void h_c11_put(void) {
   carquet_rle_encoder_t *enc = mk_enc();
   carquet_status_t st = carquet_rle_encoder_put(enc, nondet_u32());
-  if (st == CARQUET_OK) CQV_CANARY("put returns OK"); else CQV_CANARY("put returns the sticky error");
+  if (st == CARQUET_OK) CQV_CANARY("put returns OK"); else CQV_CANARY("put returns an error");
 }
 
 void h_c11_flush(void) {
   carquet_rle_encoder_t *enc = mk_enc();
   carquet_status_t st = carquet_rle_encoder_flush(enc);
-  if (st == CARQUET_OK) CQV_CANARY("flush returns OK"); else CQV_CANARY("flush returns the sticky error");
+  if (st == CARQUET_OK) CQV_CANARY("flush returns OK"); else CQV_CANARY("flush returns an error");
+}
+
+void h_c11_put_repeat(void) {
+  carquet_rle_encoder_t *enc = mk_enc();
+  carquet_status_t st = carquet_rle_encoder_put_repeat(enc, nondet_u32(), nondet_i64());
+  if (st == CARQUET_OK) CQV_CANARY("put_repeat returns OK"); else CQV_CANARY("put_repeat returns an error");
+}
+
+void h_c11_encode_all(void) {
+  carquet_buffer_t *buf = malloc(sizeof(*buf));
+  __CPROVER_assume(buf != NULL);
+  havoc_ghosts();
+  int64_t count = nondet_i64();
+  __CPROVER_assume(count <= RLE_ENC_MAX_VALUES);
+  uint32_t *in = malloc(count > 0 ? (size_t)count << 2 : 0);
+  __CPROVER_assume(in != NULL);
+  carquet_status_t st = carquet_rle_encode_all(in, count, nondet_int(), buf);
+  if (st == CARQUET_OK) CQV_CANARY("encode_all returns OK"); else CQV_CANARY("encode_all returns an error");
+}
+
+void h_c11_encode_levels(void) {
+  carquet_buffer_t *buf = malloc(sizeof(*buf));
+  __CPROVER_assume(buf != NULL);
+  havoc_ghosts();
+  int64_t count = nondet_i64();
+  __CPROVER_assume(count <= RLE_ENC_MAX_VALUES);
+  int16_t *in = malloc(count > 0 ? (size_t)count << 1 : 0);
+  __CPROVER_assume(in != NULL);
+  carquet_status_t st = carquet_rle_encode_levels(in, count, nondet_int(), buf);
+  if (st == CARQUET_OK) CQV_CANARY("encode_levels returns OK"); else CQV_CANARY("encode_levels returns an error");
 }
